@@ -86,7 +86,7 @@ CLAIMED = {
    design="DESIGN.md §3 C19"),
  "C16": dict(
    technique="bounded-exhaustive enumeration (E1) of insertion histories with repeats x arrival paths on the real collection types, witness-set setters and asset maps, against a first-insertion-order / canonical-order reference model; explicit-state BFS (E2) over builder histories with every end state rebuilt 12 times under 4 hash-container seeds",
-   text="sets: all histories of length <= 4 (thorough 6) over 4 elements into TransactionInputs, Ed25519KeyHashes, Credentials, Certificates, VotingProposals, Vkeywitnesses, BootstrapWitnesses x {add, bytes tagged/untagged x definite/indefinite, JSON, decode-a-prefix-then-add at every split, inside a TransactionBody (fields 0, 13, 18, 14, 4, 20) / TransactionWitnessSet (0, 2)}; items cut from the emitted bytes == history with later repeats dropped, also after JSON/bytes round trip and clone; len/get/add-return agree. witness_setters: histories <= 4 (5) over 4 native scripts, 4 Plutus scripts, 5 datums (same value constructed / decoded / decoded non-canonical). asset_maps: <= 3 (4) insertions over 3 policies x 4 names (lengths 0,1,1,2) through MultiAsset::set_asset, Assets+MultiAsset::insert, Value, decoding unsorted bytes / JSON, add_mint_asset, MintBuilder, set_mint; key order length-first canonical at both levels and content == model. builder: BFS to depth 4 (5) over 42 ops x 3 configs (default, reference-input de-duplication, older entry points) x 2 finishing methods; byte-identical rebuilds (object, clone, 4 hash seeds), no repeated element in any set-typed field of the built transaction, every value and mint canonical.",
+   text="sets: all histories of length <= 4 (thorough 6) over 4 elements into TransactionInputs, Ed25519KeyHashes, Credentials, Certificates, VotingProposals, Vkeywitnesses, BootstrapWitnesses x {add, bytes tagged/untagged x definite/indefinite, JSON, decode-a-prefix-then-add at every split, inside a TransactionBody (fields 0, 13, 18, 14, 4, 20) / TransactionWitnessSet (0, 2)}; items cut from the emitted bytes == history with later repeats dropped, also after JSON/bytes round trip and clone; len/get/add-return agree. witness_setters: histories <= 4 (5) over 4 native scripts, 4 Plutus scripts, 5 datums (same value constructed / decoded / decoded non-canonical). asset_maps: <= 3 (4) insertions over 3 policies x 8 names (lengths 0,1,1,2,23,24,25,32; longer names bytewise smaller) through MultiAsset::set_asset, Assets+MultiAsset::insert, Value, decoding unsorted bytes / JSON, add_mint_asset, MintBuilder, set_mint; key order length-first canonical at both levels and content == model. builder: BFS to depth 4 (5) over 28 ops (items bringing scripts, datums, reference inputs and signers) x 2 configs (default, reference-input de-duplication) x 2 finishing methods; byte-identical rebuilds (object, clone, 4 hash seeds), no repeated element in any set-typed field of the built transaction, every value and mint canonical.",
    note="Trusted: refcbor; RFC 8949 length-first key order. Hash-order seam: verif-hooks feature (seeded HashMap/HashSet in the builder).",
    design="DESIGN.md §3 C16"),
  "C04": dict(
